@@ -30,7 +30,7 @@ import (
 const fidD11 = "D11-le-distance-decode"
 
 func genC06(t *rapid.T) histPlan {
-	p, _ := genHist(t, histProfile{caps: []uint64{1, 1, 1, 2, 0}, maxOps: 70, stateful: true, bigValues: true, reopenPct: 5})
+	p, _ := genHist(t, histProfile{caps: []uint64{1, 1, 1, 2, 0}, maxOps: 70, stateful: true, bigValues: true, reopenPct: 5, sparsePct: 30})
 	return p
 }
 
@@ -198,6 +198,9 @@ func runC06(p histPlan, c *stats.Case) error {
 			pruneRan := accepted && before.Rec+uint64(32+op.Len) > capB
 			if pruneRan {
 				prunes++
+				if len(after.Items) == 0 && r0.Cmp(model.MaxDist) < 0 {
+					c.Class("prune-emptied-store-with-shrunk-radius")
+				}
 			}
 			r1LE := cls.afterPut(r0, pruneRan, after)
 			if r1.Cmp(r0) > 0 {
